@@ -34,8 +34,28 @@ def optList : Option (List PyVal) → PyVal
   | some xs => .list xs
   | none => err "IndexError"
 
+def optNat : PyVal → Option (Option Nat)
+  | .none => some none
+  | .int i => if i < 0 then none else some (some i.toNat)
+  | _ => none
+
+def natOpt : Option Nat → PyVal
+  | none => .none
+  | some n => .int (Int.ofNat n)
+
 def handle (op : String) (args : List PyVal) : Option (List PyVal) :=
   match op, args with
+  -- the block of the shared constructor as translated from the source: keywords `length`, `precision`,
+  -- `scale` (null = not given) against the parameters parsed from the type name -> the attributes afterwards
+  | "ctor", [n, p, s, dn, dp, ds] => do
+    let n ← optNat n
+    let p ← optNat p
+    let s ← optNat s
+    let dn ← optNat dn
+    let dp ← optNat dp
+    let ds ← optNat ds
+    let r ← Gen.Encodings.ctorResolve (none : Option Unit) p s n none dp ds dn
+    pure [natOpt r.2.2.2, natOpt r.2.1, natOpt r.2.2.1]
   | "rle", [.list xs] => do
     let k ← kindOf xs
     let e := rleEncode (pyEq i2fNative) xs
